@@ -1630,6 +1630,56 @@ fn persistent_member_leaving_does_not_make_others_receive_acknowledged_messages_
     report(name, "C17", "2 strategies x 2/4/6 publishes before a persistent member with unacknowledged messages loses its link", cases, fail);
 }
 
+/// C17 / C01: a message whose expiry interval has run out is dropped, and ONLY it: what was accepted after it is delivered
+// @native props=C17,C01 tier=quick fn=Router::forward_device_data (empty read that is not caught up)+DataLog::native_readv (expiry filter)
+#[test]
+fn expired_messages_do_not_block_what_follows() {
+    let name = "rumqttd::Router::forward_device_data#an_expired_message_does_not_block_the_rest";
+    let mut cases = 0u64;
+    let mut fail: Option<String> = None;
+    let expired = |payload: &str| -> Packet {
+        match publish("e/x", 0, 0, payload, false) {
+            // an expiry interval of 0 seconds has run out as soon as the message is stored
+            Packet::Publish(p, _) => Packet::Publish(p, Some(crate::protocol::PublishProperties { payload_format_indicator: None, message_expiry_interval: Some(0), topic_alias: None, response_topic: None, correlation_data: None, user_properties: vec![], subscription_identifiers: vec![], content_type: None })),
+            other => other,
+        }
+    };
+    'outer: for strategy in [Strategy::RoundRobin, Strategy::Sticky, Strategy::Random] {
+        for shared in [true, false] {
+            for q in 0..2u8 {
+                for pos in 0..3usize {
+                    cases += 1;
+                    let f = if shared { "$share/g/e/+" } else { "e/+" };
+                    let desc = format!("strategy {:?}, subscription {:?} QoS {}: 3 messages with an already expired one inserted at position {}, then one more message", strategy, f, q, pos);
+                    let mut r = Router::new(0, cfg(1024 * 1024, 10, strategy.clone()));
+                    let p = connect(&mut r, "p", true).unwrap();
+                    let s1 = connect(&mut r, "s", true).unwrap();
+                    send(&mut r, &s1, vec![subscribe(1, &[(f, q)])]);
+                    let _ = drain(&mut r, &s1);
+                    let mut batch = vec![];
+                    for k in 0..3usize {
+                        if k == pos {
+                            batch.push(expired("gone"));
+                        }
+                        batch.push(publish("e/x", 0, 0, &format!("m{}", k), false));
+                    }
+                    send(&mut r, &p, batch);
+                    let mut got: Vec<String> = receive_all(&mut r, &s1).into_iter().map(|g| g.1).collect();
+                    send(&mut r, &p, vec![publish("e/x", 0, 0, "m3", false)]);
+                    got.extend(receive_all(&mut r, &s1).into_iter().map(|g| g.1));
+                    got.extend(receive_all(&mut r, &s1).into_iter().map(|g| g.1));
+                    let want: Vec<String> = vec!["m0".into(), "m1".into(), "m2".into(), "m3".into()];
+                    if got != want {
+                        fail = Some(format!("input=[{}] detail=[the subscriber received {:?}, expected {:?}; the broker is idle]", desc, got, want));
+                        break 'outer;
+                    }
+                }
+            }
+        }
+    }
+    report(name, "C17,C01", "3 strategies x shared / plain subscription x QoS 0/1 x an expired message before the 1st, 2nd or 3rd of three messages, then a fourth", cases, fail);
+}
+
 /// C17: membership changes never lose or duplicate messages — a member that repeated its group subscription and then
 /// leaves, and a member that joins while the group has an unforwarded backlog
 // @native props=C17 tier=quick fn=SharedGroup::{add_client,remove_client}+Router::{prepare_filter,handle_disconnection,forward_device_data}
